@@ -122,9 +122,30 @@ def _auto_groups():
 
 _auto_groups()
 
-for _p in PROPS.values():
+# what the proof-level claims rest on beyond the per-run census (DESIGN.md section 9)
+_DERIVE = 'derive(PartialEq, Eq, Hash, PartialOrd, Ord, Default) are the field-wise / lexicographic implementations (compiler); String / SmartString compare and hash by their text'
+_ENC = 'utf8_percent_encode applies its per-byte table (proved by Kani on the real constants) character by character, and percent_decode inverts it: enc / dec, dec(enc(s)) == s (A: bounded replay)'
+_LOWER = 'char::to_lowercase is the Unicode mapping named u_to_lower: idempotent, never empty, never yields - _ . , from another character, ASCII = to_ascii_lowercase (A: exhaustive over all scalar values)'
+_RETAIN = 'Vec::retain / retain_mut remove exactly the elements the predicate rejects and keep the order of the others (the one std call inside Qualifiers::retain*; FnMut closures are outside Verus)'
+_HOOK = 'a user-written PurlShape hook keeps the qualifier invariant: it can reach the list only through the public API, whose mutators are verified (retain* / iter_mut assumed) to keep it'
+_CONV = 'String::from_str / From<&str> for the built-in string shapes accept every text and keep it (std)'
+_PHF = 'the phf / unicase lookup of PACKAGE_TYPES hits exactly the entry equal to the probe up to ASCII case'
+_EXTRA_TRUSTED = {
+    'C01': [_ENC, _CONV, _PHF, _LOWER, _DERIVE, _RETAIN, 'hex characters: is_ascii_hexdigit / to_ascii_lowercase (A)'],
+    'C03': [_ENC, _RETAIN, 'Display::fmt of GenericPurl is the hoisted purl_fmt (R2); write! with {}-only literals writes its pieces in source order'],
+    'C04': [_RETAIN, _HOOK, _LOWER, 'HashMap wrappers of Checksum (with_capacity / insert / get / into_iter().collect() in ARBITRARY order)'],
+    'C08': [_PHF, _LOWER, _RETAIN],
+    'C09': [_ENC, _CONV, _PHF, _LOWER, _RETAIN],
+    'C10': [_LOWER, _RETAIN, _CONV],
+    'C11': [_RETAIN, 'iter_mut hands out keys as shared references, so only values can change (typing); slice::IterMut is not specified in vstd', _DERIVE,
+            'the iterator given to try_from_iter is finite and obeys vstd\'s prophetic iterator laws'],
+    'C12': ['hex::FromHex / ToHex: decode(encode(b)) == b, encode yields lower-case hex (dependency; exercised by the checksum suite)',
+            'HashMap wrappers of Checksum (with_capacity / insert / get / get_mut / remove / into_iter().collect() in ARBITRARY order)', _LOWER],
+    'C19': [_ENC, _DERIVE],
+}
+for _k, _p in PROPS.items():
     _p.setdefault('trusted', [])
-    _p['trusted'] = _p['trusted'] + [_STD]
+    _p['trusted'] = _p['trusted'] + _EXTRA_TRUSTED.get(_k, []) + [_STD]
 
 _GROUP_CACHE = {}
 
